@@ -270,6 +270,8 @@ def gen_levels_lean(X):
                lean_str(o["name"]), lean_str(o["payload"]), sep))
     lines.append("]")
     lines.append("")
+    lines.append("def opInfo' (key : String) : OpInfo := (ops.find? (fun o => o.key == key)).getD default")
+    lines.append("")
     lines.append("def ctx : E.Ctx := ⟨levels, assocSet⟩")
     lines.append("")
     lines.append("end MoSql.Gen")
